@@ -30,7 +30,8 @@ ASSUMPTIONS = ["datagram arrival exactly at a request instant (tie) is not gener
                "an AT4 response whose id contains a comma: documents silent (undecided)"]
 REQUIRED_OBS = ["searches_on_a_reused_discoverer", "searches_judged", "valid_responses_returned", "invalid_datagrams_ignored",
                 "early_stop_after_response", "three_requests_no_answer", "duplicates_collapsed",
-                "ports_observed", "unicast_mode", "name_with_comma"]
+                "ports_observed", "unicast_mode", "name_with_comma",
+                "os_errors_reported_during_a_search"]
 BUDGET = {"quick": 100, "thorough": 1500}
 
 REQ = {4: R.AT4_DISCOVERY_REQUEST, 5: R.AT5_DISCOVERY_REQUEST}
